@@ -4,6 +4,7 @@ import (
 	"errors"
 	"fmt"
 	"math/bits"
+	"slices"
 	"sort"
 	"sync"
 	"sync/atomic"
@@ -607,6 +608,9 @@ func (mp *Pool) checkTxConflicts(tx *transaction.Transaction, feer Feer) ([]*tra
 	if conflictingHashes, ok := mp.conflicts[tx.Hash()]; ok {
 		for _, hash := range conflictingHashes {
 			existingTx := mp.verifiedMap[hash]
+			if slices.Contains(conflictsToBeRemoved, existingTx) {
+				continue
+			}
 			if existingTx.HasSigner(author) {
 				conflictingFee += existingTx.NetworkFee
 			}
@@ -635,6 +639,11 @@ func (mp *Pool) checkTxConflicts(tx *transaction.Transaction, feer Feer) ([]*tra
 			}
 			if !signerOK {
 				return nil, fmt.Errorf("%w: not signed by a signer of conflicting transaction %s", ErrConflictsAttribute, existingTx.Hash().StringBE())
+			}
+			// It can be named twice or be in conflict with tx already (step 1),
+			// it's removed (and its fee is released) once.
+			if slices.Contains(conflictsToBeRemoved, existingTx) {
+				continue
 			}
 			conflictingFee += existingTx.NetworkFee
 			conflictsToBeRemoved = append(conflictsToBeRemoved, existingTx)
